@@ -195,9 +195,19 @@ def rule_scipy(ctx, repo):
         conv = Q.first("$c = spmatrix_to_csc(%s)" % a[1], f.fn)[1]
         ok = bool(lu) and all(g.guarded_by(n, t[0], "true") for n in lu) and conv is not None and \
             Q.has("self.lu = splu($c)", f.fn, conv)
-        clr = [n for n in g.nodes() if g.data(n)["kind"] == "stmt" and (
-            Q.match("self.factorize = False", g.data(n)["ast"]) or Q.match("self.new_A = False", g.data(n)["ast"]))]
-        ok = ok and len([n for n in clr if g.guarded_by(n, t[0], "true")]) == 2
+        # both flags cleared under the guard: single, chained or tuple assignment of the constant False
+        cleared = set()
+        for n in g.nodes():
+            st_ = g.data(n)["ast"] if g.data(n)["kind"] == "stmt" else None
+            if not isinstance(st_, ast.Assign) or not g.guarded_by(n, t[0], "true"):
+                continue
+            for tg in st_.targets:
+                pairs = list(zip(tg.elts, st_.value.elts)) if isinstance(tg, ast.Tuple) and isinstance(st_.value, ast.Tuple) \
+                    and len(tg.elts) == len(st_.value.elts) else [(tg, st_.value)]
+                for a_, v_ in pairs:
+                    if dotted(a_) in ("self.factorize", "self.new_A") and isinstance(v_, ast.Constant) and v_.value is False:
+                        cleared.add(dotted(a_))
+        ok = ok and cleared == {"self.factorize", "self.new_A"}
     ctx.check(ok, "C16.factorise", "SpSolve.solve", "refactorises this call's A when factorize or new_A; clears both flags",
               "SciPy back-end does not refactorise the current A on a refresh request (or leaves a flag set)", f.W())
     ok = Q.has("$x = self.lu.solve(np.ravel(%s))" % a[2], f.fn) or Q.has("return self.lu.solve(np.ravel(%s))" % a[2], f.fn)
